@@ -15,7 +15,7 @@ import hypothesis
 from hypothesis import strategies as st
 from hypothesis.stateful import RuleBasedStateMachine, precondition, rule, run_state_machine_as_test
 
-from .. import proggen as G, refmodel as R, runner
+from .. import exprs, proggen as G, refmodel as R, runner
 from ..driver import Finding, Outcome, canon, hsettings
 
 ID = 'C08'
@@ -63,6 +63,7 @@ class Model:
     def __init__(self):
         self.stack = []          # frames {'parent','taken','active','else'}
         self.syms = {}
+        self.flags = set()       # symbols defined without a replacement text
         self.labels = set()
         self.consts = set()
         self.zones = set()
@@ -84,7 +85,9 @@ def eval_cond(c, syms):
 
 def cond_item(t, c):
     def ast(x):
-        return ['lab', x] if isinstance(x, str) else ['num', x, 'dec']
+        if isinstance(x, list):
+            return x
+        return ['lab', x] if isinstance(x, str) else ['num', x, c.get('notation', 'dec')]
     it = {'t': t, 'lhs': ast(c['lhs'])}
     if c['op'] is not None:
         it['op'] = c['op']
@@ -109,7 +112,27 @@ class History(RuleBasedStateMachine):
     def add(self, it):
         self.items.append(it)
 
-    def _cond(self, data):
+    def _cond(self, data, dead):
+        if dead and data.draw(st.integers(0, 2)) == 0:
+            # nested in a branch that is not compiled: its condition is never consulted, so it may be one that could
+            # not be evaluated at all (division by zero, an undefined or value-less symbol)
+            self.feats.add('unevaluable-condition-in-unselected')
+            zero = sorted(k for k, v in self.m.syms.items() if v == 0)
+            bad = [['bin', '/', ['num', 1000, 'dec'], ['num', 0, 'dec']], ['lab', 'NEVER_DEFINED'],
+                   ['bin', '%', ['num', 7, 'dec'], ['par', ['bin', '-', ['num', 2, 'dec'], ['num', 2, 'dec']]]]]
+            bad += [['bin', '/', ['num', 1000, 'dec'], ['lab', z]] for z in zero]
+            bad += [['lab', f] for f in sorted(self.m.flags)]
+            lhs = data.draw(st.sampled_from(bad))
+            if data.draw(st.booleans()):
+                return {'lhs': lhs, 'op': None, 'rhs': None}
+            return {'lhs': lhs, 'op': data.draw(st.sampled_from(OPS)), 'rhs': data.draw(st.integers(0, 300))}
+        c = self._cond_plain(data)
+        c['notation'] = data.draw(st.sampled_from(['dec', 'dec', 'dec0', 'hex$', 'bin%', 'hex0x']))
+        if c['notation'] != 'dec':
+            self.feats.add('literal-notation:' + c['notation'])
+        return c
+
+    def _cond_plain(self, data):
         nums = sorted(k for k in self.m.syms)
         lhs = data.draw(st.one_of(st.sampled_from(nums), st.integers(0, 3)) if nums else st.integers(0, 3))
         if data.draw(st.integers(0, 2)) == 0:
@@ -121,7 +144,7 @@ class History(RuleBasedStateMachine):
     @precondition(lambda self: not self.m.dead and len(self.m.stack) < 4)
     @rule(data=st.data())
     def open_if(self, data):
-        c = self._cond(data)
+        c = self._cond(data, not self.m.active)
         parent = self.m.active
         v = eval_cond(c, self.m.syms) if parent else False
         if not parent and self.m.stack:
@@ -133,7 +156,7 @@ class History(RuleBasedStateMachine):
     @rule(sym=st.sampled_from(SYMS), neg=st.booleans())
     def open_ifdef(self, sym, neg):
         parent = self.m.active
-        d = sym in self.m.alldefs if hasattr(self.m, 'alldefs') else sym in self.m.syms
+        d = sym in self.m.syms or sym in self.m.flags
         v = (not d if neg else d) if parent else False
         if not parent and self.m.stack:
             self.feats.add('nested-in-unselected')
@@ -144,7 +167,7 @@ class History(RuleBasedStateMachine):
     @precondition(lambda self: not self.m.dead and self.m.stack and not self.m.stack[-1]['else'])
     @rule(data=st.data())
     def elif_(self, data):
-        c = self._cond(data)
+        c = self._cond(data, not self.m.stack[-1]['parent'])
         f = self.m.stack[-1]
         if f['parent']:
             v = eval_cond(c, self.m.syms)
@@ -172,17 +195,25 @@ class History(RuleBasedStateMachine):
         self.add({'t': 'endif'})
 
     @precondition(lambda self: not self.m.dead)
-    @rule(sym=st.sampled_from(SYMS), val=st.integers(0, 3))
-    def define(self, sym, val):
+    @rule(sym=st.sampled_from(SYMS), val=st.one_of(st.integers(0, 3), st.integers(0, 3), st.none()),
+          notation=st.sampled_from(['dec', 'dec', 'dec0', 'hex$', 'hex0x', 'bin%']))
+    def define(self, sym, val, notation):
         if self.m.active:
-            if sym in self.m.syms:
+            if sym in self.m.syms or sym in self.m.flags:
                 return          # a second active definition is C09's business
-            self.m.syms[sym] = val
+            if val is None:
+                self.m.flags.add(sym)
+            else:
+                self.m.syms[sym] = val
             if any(f.get('tests') == sym for f in self.m.stack):
                 self.feats.add('define-inside-block-that-tests-it')
         else:
             self.feats.add('side-effect-in-unselected:define')
-        self.add({'t': 'define', 'name': sym, 'value': str(val)})
+        if val is None:
+            self.feats.add('define-without-value')
+            self.add({'t': 'define', 'name': sym})
+        else:
+            self.add({'t': 'define', 'name': sym, 'value': exprs.render_num(val, notation)})
 
     @precondition(lambda self: not self.m.dead)
     @rule()
